@@ -223,4 +223,7 @@ class Encoder(object):
         return "'%s'" % val.compressed
 
     def cql_encode_decimal(self, val):
-        return self.cql_encode_float(float(val))
+        # the exact digits: going through float silently rounded values with more than ~17 significant digits
+        if val.is_nan() or val.is_infinite():
+            return self.cql_encode_float(float(val))
+        return str(val)
